@@ -152,6 +152,24 @@ PROPS["C11"]["explanation"] = (
     "instead of substring (known finding); VFREEBUSY time-range and multi-instance properties are outside the contracts.")
 PROPS["C11"]["replay"]["xandikos.icalendar.as_tz_aware_ts"] = PURE
 PROPS["C11"]["standins"]["xandikos.icalendar.as_tz_aware_ts"] = {"driver": PURE, "bound": "6 date / floating / zoned values x 4 default zones"}
+INDEX_EXPLORE = "index_explore.py"
+_IDX_BOUND = ("seeded histories of 4-14 steps (quick: 60, thorough: 750, per back end (tree-git, vdir) and indexing threshold (0, 2)): puts of 5 "
+              "calendar object shapes (incl. two VEVENTs in one object, VEVENT+VTODO) under 3 names, deletes, unparseable members, store "
+              "re-open, 10 filters each repeated 1-3 times so that their keys pass the threshold and the index is reset and extended; after "
+              "every query the result is compared with a direct evaluation of a fresh filter on every member")
+_IDX = "xandikos.store.index.MemoryIndex."
+PROPS["C10"] = {
+    "level": "other",
+    "functions": [_IDX + "reset", _IDX + "add_values", _IDX + "get_values"],
+    "explanation": "The in-memory index is under contract (reset forgets every covered etag, add_values records exactly the given values "
+                   "for one etag, get_values returns exactly what was recorded); that the index-side filter evaluation agrees with the "
+                   "object-side one for every filter, and the choice between the two paths (AutoIndexManager, Store.iter_with_filter), "
+                   "are covered by the bounded history explorer only. One deviation is a known finding (component time-range over an "
+                   "object with several components of the filtered type).",
+    "replay": {f: INDEX_EXPLORE for f in [_IDX + "reset", _IDX + "add_values", _IDX + "get_values"]},
+    "standins": {f: {"driver": INDEX_EXPLORE, "bound": _IDX_BOUND} for f in [_IDX + "reset", _IDX + "add_values", _IDX + "get_values"]},
+    "bounded_always": {"xandikos.store.Store.iter_with_filter": {"driver": INDEX_EXPLORE, "bound": _IDX_BOUND}},
+}
 PROPS["C13"] = {
     "level": "proof",
     "functions": [WEB + "XandikosBackend._map_to_file_path", WEB + "XandikosBackend.get_resource",
